@@ -34,16 +34,19 @@ VIEW_DEVS = ["multi-view-last-wins", "observable-view-attribute-filter-ignored",
 SCOPE_DEVS = ["getlogger-disabled-scope-new-object"]
 
 NAME_INVS = "TypeOK StatementName StatementUnit ExactlyValid LayoutFree DevNarrow HandAgrees"
-VIEW_INVS = "ExactlyMatching OnlyViewShapes DefaultWhenNoMatch DevNarrow"
+VIEW_INVS = "ExactlyMatching OnlyViewShapes MeterIdentityExact DefaultWhenNoMatch DevNarrow"
 SCOPE_INVS = ("FirstMatchWins DisabledEmitsNothingOthersUnaffected DifferentlyNamedUnaffected "
               "SameArgsSameObject DifferentArgsDifferentObject DevNarrow")
 
 NAME_TAGS = {"valid255", "invalid256", "unit63", "unit64", "devname", "devunit", "nulname", "highunit"}
 VIEW_TAGS = {"TwoMatch", "FirstOnly", "SecondOnly", "NoneOfTwo", "Drop", "ObsFilter", "KeyView", "KeyNul",
              "EmptyFilter", "VersionMiss", "SchemaMiss", "MeterNameMiss", "TypeMiss", "UnitMiss", "PrefixHit",
-             "SuffixHit", "ExactMiss", "Rename", "Default"}
+             "SuffixHit", "ExactMiss", "Rename", "Default",
+             # empty identity fields on the meter side / an instrument without unit
+             "UnnamedMeterMiss", "UnnamedMeterHit", "BareMeterMiss", "BareMeterHit", "NoVersionMeterHit",
+             "NoSchemaMeterHit", "NoVersionMeterNameMiss", "NoUnitInstMiss", "NoUnitInstHit"}
 RX_LABELS = {"alt", "altone", "altsub", "opt", "plus", "star", "cls", "any", "escdot", "anch", "rep"}
-SCOPE_TAGS = {"enabled", "disabled", "default", "second", "third", "shadowed", "byname", "bycond"}
+SCOPE_TAGS = {"enabled", "disabled", "default", "second", "third", "shadowed", "byname", "bycond", "unnamed", "unnamedskip"}
 SCOPE_WITS = {"SameTwice", "DisabledLogTwice", "EnabledLogTwice", "Mixed", "EmitOldHandle"}
 
 
@@ -256,7 +259,7 @@ def views_jobs(ctx):
                                                  "INamesAll", "IUnit1", "Meters2", "Attrs1",
                                                  2, 1, False, VIEW_INVS), workers=4, coverage=True),
         Job("views-mc-select", "Views", views_cfg(t2, "PatsAll", "UnitSelAll", "MSelsAll",
-                                                  "Shape1", "INamesAll", "IUnitsAll", "MetersAll", "Attrs1", 1, 1, False,
+                                                  "Shape1", "INamesAll", "IUnitsAll", "Meters3", "Attrs1", 1, 1, False,
                                                   VIEW_INVS), workers=4 if thorough else 3),
         Job("views-mc-shape", "Views", views_cfg("TypesAll", "Pats3" if thorough else "Pats2",
                                                  "UnitSel2" if thorough else "UnitSelAny", "MSelAny", "ShapesAll", "IName1",
@@ -264,20 +267,25 @@ def views_jobs(ctx):
         # regular-expression name selectors, one operator alone per pattern: model checking + sweep export in one run
         Job("views-mc-regex", "Views", views_cfg("Types1", "PatsRx", "UnitSelAny", "MSelAny", "Shape1", "INamesRx", "IUnit1",
                                                  "Meter1", "Attrs1", 1, 1, False, VIEW_INVS + " EmitSweep")),
+        # meter identity: EVERY meter selector x EVERY meter, both over {empty, a, b}^3 for name / version / schema url
+        # (27 selectors x 27 meters; thorough: x unit selector x instrument unit over {empty, a, b}): model checking + sweep export
+        Job("views-mc-meters", "Views", views_cfg("Types1", "PatAllOnly", "UnitSelAll" if thorough else "UnitSelAny", "MSelsAll",
+                                                  "Shape1", "IName1", "IUnitsAll" if thorough else "IUnit1", "MetersAll", "Attrs1",
+                                                  1, 1, False, VIEW_INVS + " EmitSweep")),
         # sweep exports: every selector / every shape / every pair over a product domain
         Job("views-g-select", "Views", views_cfg(t2, "PatsAll", "UnitSelAll", "MSelsAll", "Shape1", "INamesAll",
-                                                 "IUnitsAll", "MetersAll", "Attrs1", 1, 0, False, "EmitSweep")),
+                                                 "IUnitsAll", "Meters3", "Attrs1", 1, 0, False, "EmitSweep")),
         Job("views-g-shape", "Views", views_cfg("TypesAll", "PatAllOnly", "UnitSelAny", "MSelAny", "ShapesAll", "IName1",
                                                 "IUnit1", "Meter1", "AttrsAll", 1, 0, False, "EmitSweep")),
         Job("views-g-pairs", "Views", views_cfg("Types2", "Pats3", "UnitSelAny" if not thorough else "UnitSel2",
                                                 "MSels2" if not thorough else "MSels4", "Shapes2", "INamesAll", "IUnit1",
-                                                "MetersAB" if not thorough else "Meters2", "Attrs1", 2, 0, False, "EmitSweep")),
+                                                "MetersAB" if not thorough else "Meters2U", "Attrs1", 2, 0, False, "EmitSweep")),
         # random view pairs over the larger domain, and random multi-instrument behaviours of the machine
         Job("views-g-pairs-sim", "Views", views_cfg("TypesAll", "PatsAll", "UnitSel2", "MSels4", "Shapes2", "INamesAll",
-                                                    "IUnits2", "Meters2", "Attrs1", 2, 0, False, "EmitSweep"),
+                                                    "IUnits2", "Meters6" if thorough else "Meters2U", "Attrs1", 2, 0, False, "EmitSweep"),
             simulate={"num": 600 if thorough else 120, "depth": 3}, seed=ctx.seed + 19),
         Job("views-g-beh-sim", "Views", views_cfg("Types3", "PatsMix", "UnitSel2", "MSels4", "ShapesAll", "INamesMix",
-                                                  "IUnits2", "MetersAll", "AttrsAll", 2, 3, True, "EmitAll"),
+                                                  "IUnits2", "Meters6", "AttrsAll", 2, 3, True, "EmitAll"),
             simulate={"num": 1500 if thorough else 250, "depth": 7}, seed=ctx.seed + 23),
     ]
     return jobs
@@ -285,7 +293,7 @@ def views_jobs(ctx):
 
 def views_replay(ctx, exe, results):
     thorough = ctx.tier == "thorough"
-    for n in ("views-mc-pairs", "views-mc-select", "views-mc-shape", "views-mc-regex", "views-g-select", "views-g-shape",
+    for n in ("views-mc-pairs", "views-mc-select", "views-mc-shape", "views-mc-regex", "views-mc-meters", "views-g-select", "views-g-shape",
               "views-g-pairs", "views-g-pairs-sim", "views-g-beh-sim"):
         expect_status(results[n], n, "ok")
     cov = results["views-mc-pairs"].coverage
@@ -309,7 +317,7 @@ def views_replay(ctx, exe, results):
         for x in insts:
             tags.update(x.get("tags", []))
             rxtags.update(tuple(t) for t in x.get("rxtags", []))
-    for n in ("views-mc-regex", "views-g-select", "views-g-shape", "views-g-pairs", "views-g-pairs-sim"):
+    for n in ("views-mc-regex", "views-mc-meters", "views-g-select", "views-g-shape", "views-g-pairs", "views-g-pairs-sim"):
         got = results[n].printed("BEHS")
         if not got:
             raise Broken("%s printed no sweep lines" % n)
@@ -392,17 +400,21 @@ def scope_jobs(ctx):
         Job("scope-g-sweep", "ScopeConfig", scope_cfg("SignalsAll", "Matchers5", "Scopes7", 3, 0, 0, "NoDev", False, "EmitSweep")),
         Job("scope-g-sweep-attr", "ScopeConfig", scope_cfg("SignalLogs", "Matchers3", "ScopesLog", 2, 0, 0, "NoDev", False,
                                                            "EmitSweep")),
+        # identities with EMPTY fields: every combination of empty / given name, version, schema url (8 scopes, one of them
+        # Get*("")) under every rule list of <= 2 rules: model checking (one Get, one Emit) + sweep export
+        Job("scope-mc-empty", "ScopeConfig", scope_cfg("SignalsAll", "Matchers3", "ScopesE", 2, 1, 1, "NoDev", False,
+                                                       SCOPE_INVS + " EmitSweep")),
         # witness-directed behaviours (identity asked twice, disabled logger twice, ...)
         Job("scope-g-wit", "ScopeConfig", scope_cfg("SignalsAll", "Matchers3", "Scopes3", 1, 3, 2, "NoDev", True, "WitAll",
                                                     init="WInit"), workers=1),
-        Job("scope-g-sim", "ScopeConfig", scope_cfg("SignalsAll", "Matchers5", "Scopes7", 3, 6, 6, "NoDev", True, "EmitAll"),
+        Job("scope-g-sim", "ScopeConfig", scope_cfg("SignalsAll", "Matchers5", "Scopes9", 3, 6, 6, "NoDev", True, "EmitAll"),
             simulate={"num": 2500 if thorough else 400, "depth": 13}, seed=ctx.seed + 31),
     ]
 
 
 def scope_replay(ctx, exe, results):
     thorough = ctx.tier == "thorough"
-    for n in ("scope-mc-rules", "scope-mc-ops", "scope-mc-asimpl", "scope-g-sweep", "scope-g-sweep-attr", "scope-g-sim"):
+    for n in ("scope-mc-rules", "scope-mc-ops", "scope-mc-asimpl", "scope-mc-empty", "scope-g-sweep", "scope-g-sweep-attr", "scope-g-sim"):
         expect_status(results[n], n, "ok")
     for n, acts in (("scope-mc-ops", ("GetIdeal", "Emit")), ("scope-mc-asimpl", ("GetIdeal", "GetDev", "Emit"))):
         cov = results[n].coverage
@@ -420,7 +432,7 @@ def scope_replay(ctx, exe, results):
         i = len(lines)
         lines.append({"id": i, "signal": b["signal"], "rules": b["rules"], "dflt": b["dflt"], "steps": steps, "src": src})
         expect[i] = exp
-    for n in ("scope-g-sweep", "scope-g-sweep-attr"):
+    for n in ("scope-g-sweep", "scope-g-sweep-attr", "scope-mc-empty"):
         got = results[n].printed("BEHS")
         if not got:
             raise Broken("%s printed nothing" % n)
@@ -566,7 +578,7 @@ def run(ctx):
         "concretisation tables of harness/c19_{names,views,scopes}.cc (byte classes partition 0..255; name tokens, units, meters, scope names) are part of the trusted base",
         "instrument names are replayed through all 6 instrument types x {integer, floating point} chosen by seed; the verdict must not depend on the choice",
         "an exactly-sized, non-terminated string_view argument is replayed in a forked child; reading past it is 'undefined' (any outcome, or an ASan report) under the c-string deviations only",
-        "left open because the statement is silent: order of collected streams; monotonicity/temporality/values; a meter WITHOUT version/schema against a selector WITH one; whether a drop view yields no stream or a stream of drop points; regex metacharacters inside exact names",
+        "left open because the statement is silent: order of collected streams; monotonicity/temporality/values; a meter WITHOUT version/schema against a selector WITH one where the other fields do not already decide (the meter NAME is always compared: an unnamed meter is selected only by selectors without name); whether a drop view yields no stream or a stream of drop points; regex metacharacters inside exact names",
         "only the std::regex variants of the validators and PatternPredicate are executed (OPENTELEMETRY_HAVE_WORKING_REGEX == 0 cannot be selected with this compiler); the hand-written validators are compared with the statement inside the model only (HandAgrees)",
         "ABI v1: only GetLogger takes scope attributes; GetTracer/GetMeter identity is name/version/schema",
     ]
